@@ -20,6 +20,9 @@ def cnt (r : Nat → Bool) : Nat → Nat
 /-- number of elements that are in the list (created and not removed). -/
 def liveCount (s : State) : Nat := cnt s.rem s.size
 
+/-- the abstract list: the ids created and not removed, in insertion order. -/
+def remaining (s : State) : List Nat := (List.range s.size).filter (fun i => !s.rem i)
+
 /-- The contract of `Remove`: the element is in the list, i.e. it has not been removed before
     ("removed elements cannot be added back" — nor removed again).  The code does NOT enforce
     it (see `remove_once_guard_needed_counterexample`).  Every other step is unrestricted
